@@ -237,6 +237,20 @@ impl PairWorld {
             &pair::QueryMsg::ProtocolFees { asset_id: None, all_time: Some(all_time) }).unwrap();
         [r.fees[0].amount.u128(), r.fees[1].amount.u128()]
     }
+    /// the single-asset forms of the ledger queries (`asset_id: Some(..)`) against the whole-ledger forms
+    pub fn ledger_queries_disagree(&self) -> Option<String> {
+        let (pend, burned) = (self.fees_query(false), self.burned_query());
+        for i in 0..2 {
+            let id = match &self.assets[i] { AssetInfo::NativeToken { denom } => denom.clone(), AssetInfo::Token { contract_addr } => contract_addr.clone() };
+            let p: Result<pair::ProtocolFeesResponse, _> = self.app.wrap().query_wasm_smart(&self.pair, &pair::QueryMsg::ProtocolFees { asset_id: Some(id.clone()), all_time: None });
+            let b: Result<pair::ProtocolFeesResponse, _> = self.app.wrap().query_wasm_smart(&self.pair, &pair::QueryMsg::BurnedFees { asset_id: Some(id.clone()) });
+            match p { Ok(r) if r.fees.len() == 1 && r.fees[0].amount.u128() == pend[i] && r.fees[0].info == self.assets[i] => {}
+                      _ => return Some(format!("ProtocolFees{{asset_id: {}}} disagrees with the pending ledger", id)) }
+            match b { Ok(r) if r.fees.len() == 1 && r.fees[0].amount.u128() == burned[i] && r.fees[0].info == self.assets[i] => {}
+                      _ => return Some(format!("BurnedFees{{asset_id: {}}} disagrees with the burned ledger", id)) }
+        }
+        None
+    }
     pub fn burned_query(&self) -> [u128; 2] {
         let r: pair::ProtocolFeesResponse = self.app.wrap().query_wasm_smart(&self.pair,
             &pair::QueryMsg::BurnedFees { asset_id: None }).unwrap();
